@@ -132,6 +132,10 @@ type W struct {
 	// ExtraGor: client goroutines the harness itself started (e.g. an httpflv.PullSession driven
 	// directly); each is parked on a dial or on a live connection like a relay goroutine (atomic)
 	ExtraGor int64
+	// RelaxedRelay: accept connection attempts nobody waits for any more (a client session whose
+	// Start() timed out leaves its connect goroutine dialing): settled once every counted goroutine
+	// can be parked, instead of exactly accounted. Only for crash checks.
+	RelaxedRelay bool
 	// DialRaw: remote names whose accepted connections get no reference peer (the harness scripts them)
 	DialRaw map[string]bool
 	// the server's clock (unix milliseconds); pkg/logic Group methods read it through group.verifNow
